@@ -1,5 +1,6 @@
 import IsoMdl.Model.Issuance
 import IsoMdl.Spec.Issuance
+import IsoMdl.Spec.Cddl
 namespace IsoMdl.Driver
 open IsoMdl IsoMdl.Cbor IsoMdl.Issuance
 
@@ -61,6 +62,29 @@ def authOk (alg : Int) (docType : Bytes) (digestAlg : String) (protectedB x5got 
    | _ => false) &&
   -- to-be-signed bytes are the RFC 8152 Sig_structure
   sigPayload == enc (.array [tx "Signature1", .bytes protectedB, .bytes [], .bytes payload])
+
+/-- C18: the independent CDDL validator on raw bytes -/
+def cddlOp : List String → Option String
+  | [op, hex] =>
+    if !op.startsWith "cddl." then none else
+    match bytesOfHex hex with
+    | none => none
+    | some b =>
+      let p : Option (Cbor → Bool) := match op with
+        | "cddl.deviceEngagement" => some Cddl.deviceEngagement
+        | "cddl.sessionEstablishment" => some Cddl.sessionEstablishment
+        | "cddl.sessionData" => some Cddl.sessionData
+        | "cddl.deviceRequest" => some Cddl.deviceRequest
+        | "cddl.deviceResponse" => some Cddl.deviceResponse
+        | "cddl.mso" => some Cddl.mso
+        | "cddl.msoTagged" => some (Cddl.tag24 Cddl.mso)
+        | "cddl.documentAlg" => some Cddl.deviceAlgMatchesKey
+        | "cddl.coseKey" => some Cddl.coseKey
+        | _ => none
+      p.map fun f => match decodeAll b with
+        | some v => toString (f v)
+        | none => "false"
+  | _ => none
 
 def issuanceOp : List String → Option String
   | ["did.new", i] => i.toInt?.map fun n =>
